@@ -35,16 +35,7 @@ func c05TableCase() []string {
 	return ops
 }
 
-// op mix without the requests that can hang a case
-func c05Op(rng *rand.Rand) string {
-	for {
-		o := c06RandOp(rng, true)
-		if strings.HasPrefix(o, "u32del") && rng.Intn(4) != 0 {
-			continue
-		}
-		return o
-	}
-}
+func c05Op(rng *rand.Rand) string { return c06RandOp(rng, true) }
 
 func c05Gen(rng *rand.Rand, tier string, w *bufio.Writer) {
 	cases, length, idleCases := 40, 24, 2
@@ -71,6 +62,23 @@ func c05Gen(rng *rand.Rand, tier string, w *bufio.Writer) {
 	// replaced by the new treasure, which is then dropped from the write buffer unwritten
 	emit("p1", []string{"set 11 k0|i64:5||||| k1|i64:6|||||", "close", "del k0", "inc i64 k0 1 - - -", "del k0", "getall", "close", "getall", "count"})
 	emit("p0", []string{"set 11 k0|i64:5||||| k1|i64:6|||||", "close", "del k0", "inc i64 k0 1 - - -", "del k0", "getall", "close", "getall", "count"})
+	// the write ticker (kind p1t, 1 s): the same delete / re-create / delete around ticker runs, zero-like
+	// values written by the ticker rather than by close, and one random history; a wait of 2.5 s
+	// precedes every request whose outcome depends on what the ticker has written
+	emit("p1t", []string{"set 11 k0|i64:5||||| k1|i64:6|||||", "wait 2500", "del k0", "inc i64 k0 1 - - -", "wait 2500", "del k0", "getall", "wait 2500", "close", "getall", "count"})
+	emit("p1t", []string{"set 11 k0|i64:0|a1000000000|u1||| k1|u32s:||||| k2|str:||||| k3|void|||||", "wait 2500", "restart", "getall", "set 11 k0|i64:7|||||", "del k1", "wait 2500", "close", "getall"})
+	{
+		var ops []string
+		for j := 0; j < 8; j++ {
+			o := c05Op(rng)
+			if v := strings.SplitN(o, " ", 2)[0]; v == "del" || v == "shift" || v == "u32del" {
+				ops = append(ops, "wait 2500")
+			}
+			ops = append(ops, o)
+		}
+		ops = append(ops, "getall", "wait 2500", "close", "getall", "count")
+		emit("p1t", ops)
+	}
 	readBack := func() []string {
 		return []string{"getall", "count", "get " + strings.Join(c06Keys, " "), "issw"}
 	}
